@@ -145,8 +145,8 @@ def impl_scalar(el, b):
         return ('raised', type(e).__name__, str(e)[:160])
 
 
-def export(kind, arr):
-    return C.export_fixarr(arr) if kind == 'point' else C.export_listarr(arr)
+def export(kind, arr, scale=1):
+    return C.export_fixarr(arr, scale) if kind == 'point' else C.export_listarr(arr, scale)
 
 
 def viol(rep, sig, what, rp):
@@ -185,10 +185,12 @@ def physical_elements(elems, how, junk):
 
 def run_family(rep, acc, kind, elements, boxes, tag, junk, chunk=64, batch=320,
                scalar_boxes=16, scalar_stride=1, oracle_stride=0, classify_stride=0,
-               subtypes=G.SUBTYPES, both_every=4, sample=1.0):
+               subtypes=G.SUBTYPES, both_every=4, sample=1.0, qscale=1):
     """one enumeration family: every element x every box, through all forms.
     sample < 1: only a seeded fraction of the (chunk, box batch) pairs is run (at least one
-    batch per chunk, so every element is exercised); the fraction grows with rep.scale"""
+    batch per chunk, so every element is exercised); the fraction grows with rep.scale.
+    qscale > 1: the boxes are given in units of 1/qscale (corners on the half / quarter grid); the
+    library gets box / qscale as floats, the model gets vertices * qscale and the integer box"""
     rng = rep.rng
     nb = len(boxes)
     sample = min(1.0, sample * float(getattr(rep, 'scale', 1) or 1))
@@ -205,6 +207,7 @@ def run_family(rep, acc, kind, elements, boxes, tag, junk, chunk=64, batch=320,
         rng.shuffle(perm)
         inds = perm + [rng.randrange(n) for _ in range(3)]
         inds_np = np.array(inds, dtype=rng.choice(['int64', 'int32', 'uint32']))
+        selems = [U.scale_el(e, qscale) for e in elems]
         arrays = {}
         inert = np.array([e is None or len(e) == 0 for e in elems], dtype=bool)
         res_by_box = {}
@@ -218,20 +221,21 @@ def run_family(rep, acc, kind, elements, boxes, tag, junk, chunk=64, batch=320,
             st = subtypes[(ci + bj) % len(subtypes)]
             if st not in arrays:
                 arr = U.build(kind, phys, st, deriv)
-                arrays[st] = (arr, C.Raw(C.coq(export(kind, arr))))
+                arrays[st] = (arr, C.Raw(C.coq(export(kind, arr, qscale))))
             arr, rec = arrays[st]
             bb = boxes[blo:blo + batch]
             both = bj % both_every == 0     # the at-inds form on every both_every-th batch
             results = []
             meta = {'kind': kind, 'subtype': st, 'elements': phys, 'derivation': deriv,
-                    'inds': inds, 'family': tag}
+                    'inds': inds, 'family': tag, 'qscale': qscale}
             for b in bb:
-                r1, r2 = impl_array(arr, b, inds_np if both else None)
+                bi = b if qscale == 1 else tuple(c / qscale for c in b)
+                r1, r2 = impl_array(arr, bi, inds_np if both else None)
                 for form, r in (('array', r1), ('inds', r2)):
                     if isinstance(r, tuple):
                         viol(rep, f'raises:{kind}:{form}', f'{kind} intersects_bounds ({form} form) raised '
                              f'{r[1]}: {r[2]}', {**meta, 'box': list(b), 'impl': list(r),
-                                                 'repro': repro(kind, phys, st, deriv, b, inds if form == 'inds' else None)})
+                                                 'repro': repro(kind, phys, st, deriv, bi, inds if form == 'inds' else None)})
                 ok1, ok2 = not isinstance(r1, tuple), not isinstance(r2, tuple)
                 if both:
                     results.append((opt(U.pack_np(r1)) if ok1 else None, opt(U.pack_np(r2)) if ok2 else None))
@@ -243,7 +247,7 @@ def run_family(rep, acc, kind, elements, boxes, tag, junk, chunk=64, batch=320,
                         viol(rep, f'forms-differ:{kind}:inds',
                              f'{kind}: intersects_bounds(box, inds) differs from intersects_bounds(box)[inds]',
                              {**meta, 'box': list(b), 'array_form': r1.tolist(), 'inds_form': r2.tolist(),
-                              'repro': repro(kind, phys, st, deriv, b, inds)})
+                              'repro': repro(kind, phys, st, deriv, bi, inds)})
                 if ok1:
                     ob = U.orient(b)
                     deg = ob[0] == ob[2] or ob[1] == ob[3]
@@ -253,7 +257,7 @@ def run_family(rep, acc, kind, elements, boxes, tag, junk, chunk=64, batch=320,
                         viol(rep, f'corner-order:{kind}',
                              f'{kind}: result depends on the order of the box corners',
                              {**meta, 'box': list(b), 'other_box': list(canon[key][1]),
-                              'repro': repro(kind, phys, st, deriv, b, None)})
+                              'repro': repro(kind, phys, st, deriv, bi, None)})
                     canon.setdefault(key, (p1, b))
                     res_by_box[b] = r1
                     rep._c01_pairs += n
@@ -263,13 +267,13 @@ def run_family(rep, acc, kind, elements, boxes, tag, junk, chunk=64, batch=320,
                         viol(rep, f'inert-true:{kind}',
                              f'{kind}: a missing/empty element is reported as intersecting',
                              {**meta, 'box': list(b), 'index': i,
-                              'repro': repro(kind, phys, st, deriv, b, None)})
+                              'repro': repro(kind, phys, st, deriv, bi, None)})
                     if oracle_stride:
                         for i in range((bj + blo) % oracle_stride, n, oracle_stride):
-                            check_oracle(rep, kind, elems[i], b, bool(r1[i]), deg, meta, i)
+                            check_oracle(rep, kind, selems[i], b, bool(r1[i]), deg, meta, i)
                     if classify_stride and not deg:
                         for i in range((bj * 7 + blo) % classify_stride, n, classify_stride):
-                            rep.count(f'{kind}:' + U.classify(kind, elems[i], b))
+                            rep.count(f'{kind}:' + U.classify(kind, selems[i], b))
             meta['boxes'] = [list(b) for b in bb]
             meta['both'] = both
             w = Acc.COST[kind] * n * len(bb)
@@ -294,7 +298,7 @@ def run_family(rep, acc, kind, elements, boxes, tag, junk, chunk=64, batch=320,
         blist = list(res_by_box.keys())
         for i in range(0, n, scalar_stride):
             if kind == 'point':
-                scalar_point(rep, acc, arr, i, elems, blist, res_by_box, scalar_boxes, meta)
+                scalar_point(rep, acc, arr, i, elems, blist, res_by_box, scalar_boxes, meta, qscale)
                 continue
             try:
                 el = arr[i]
@@ -308,7 +312,7 @@ def run_family(rep, acc, kind, elements, boxes, tag, junk, chunk=64, batch=320,
                          {**meta, 'index': i})
                 continue
             sb = [blist[(i * 31 + t * 97) % len(blist)] for t in range(scalar_boxes)]
-            got = [impl_scalar(el, b) for b in sb]
+            got = [impl_scalar(el, b if qscale == 1 else tuple(c / qscale for c in b)) for b in sb]
             for b, g in zip(sb, got):
                 if isinstance(g, tuple):
                     cls = 'empty' if len(elems[i]) == 0 else 'nonempty'
@@ -323,22 +327,22 @@ def run_family(rep, acc, kind, elements, boxes, tag, junk, chunk=64, batch=320,
                           'array': bool(res_by_box[b][i]),
                           'repro': f'{G.array_class(kind).__name__}([{elems[i]!r}])[0].intersects_bounds({tuple(b)!r})'})
             rep._c01_scalar += len(sb)
-            nbuf, srec = U.export_scalar(el)
+            nbuf, srec = U.export_scalar(el, qscale)
             res = None if any(isinstance(g, tuple) for g in got) else C.Some(U.pack(got))
             acc.add(f'run_scalar_packed {SCALAR_FN[kind]}', 'nat * listarr * list box', 'option Z',
                     (nbuf, srec, U.boxes_raw(sb)), res,
                     {'kind': kind, 'form': 'scalar', 'element': elems[i], 'boxes': [list(b) for b in sb],
-                     'subtype': st, 'family': tag}, Acc.COST[kind] * len(sb))
+                     'subtype': st, 'family': tag, 'qscale': qscale}, Acc.COST[kind] * len(sb))
             rep.count(f'scalar_cases:{kind}')
 
 
-def scalar_point(rep, acc, arr, i, elems, blist, res_by_box, scalar_boxes, meta):
+def scalar_point(rep, acc, arr, i, elems, blist, res_by_box, scalar_boxes, meta, qscale=1):
     el = arr[i]
     if el is None:
         rep.count('scalar_missing_is_None')
         return
     sb = [blist[(i * 31 + t * 97) % len(blist)] for t in range(scalar_boxes)]
-    got = [impl_scalar(el, b) for b in sb]
+    got = [impl_scalar(el, b if qscale == 1 else tuple(c / qscale for c in b)) for b in sb]
     for b, g in zip(sb, got):
         if isinstance(g, tuple):
             viol(rep, 'scalar-raises:point', f'Point.intersects_bounds raised {g[1]}: {g[2]}',
@@ -352,9 +356,9 @@ def scalar_point(rep, acc, arr, i, elems, blist, res_by_box, scalar_boxes, meta)
     fv = el.flat_values
     res = None if any(isinstance(g, tuple) for g in got) else C.Some(U.pack(got))
     acc.add('run_point_scalar_packed', '(num * num) * list box', 'option Z',
-            ((C.num(float(fv[0])), C.num(float(fv[1]))), U.boxes_raw(sb)), res,
+            ((C.num(float(fv[0]) * qscale), C.num(float(fv[1]) * qscale)), U.boxes_raw(sb)), res,
             {'kind': 'point', 'form': 'scalar', 'element': elems[i], 'boxes': [list(b) for b in sb],
-             'family': meta['family']}, 3 * len(sb))
+             'family': meta['family'], 'qscale': qscale}, 3 * len(sb))
     rep.count('scalar_cases:point')
 
 
@@ -511,6 +515,68 @@ def families(rep, tier):
                                                       scalar_boxes=8, chunk=64)
 
 
+def frac_boxes(rng, n, lo=-1, hi=9):
+    """boxes in units of 1/4 whose corners are not all whole numbers: half and quarter values,
+    thin boxes inside one lattice cell (they collapse when truncated), boxes whose truncation
+    grows them onto a lattice line; 1/4 with reversed corners, a few of zero extent"""
+    out = []
+    while len(out) < n:
+        def coord():
+            return 4 * rng.randint(lo, hi - 1) + rng.choice([0, 1, 2, 2, 2, 3])
+        kind = rng.random()
+        if kind < .25:      # thin in x and/or y, strictly inside a lattice cell
+            x0 = 4 * rng.randint(lo, hi - 1) + rng.choice([1, 2]); x1 = x0 + 1
+            y0, y1 = sorted((coord(), coord()))
+            if rng.random() < .5:
+                x0, y0, x1, y1 = y0, x0, y1, x1
+        else:
+            x0, x1 = sorted((coord(), coord()))
+            y0, y1 = sorted((coord(), coord()))
+        if all(c % 4 == 0 for c in (x0, y0, x1, y1)):
+            continue
+        if rng.random() > .04 and (x0 == x1 or y0 == y1):
+            continue
+        b = (x0, y0, x1, y1)
+        if rng.random() < .25:
+            b = U.reorder(b, rng.randint(1, 3))
+        out.append(b)
+    return out
+
+
+def frac_families(rep, tier):
+    """every kind against boxes on the half / quarter grid (model side scaled by 4), the integer
+    subtypes first: a box cast to the coordinate dtype instead of float would be truncated"""
+    rng = rep.rng
+    quick = tier == 'quick'
+    ev = [0, 2, 4, 6]
+    P = U.grid_points(ev)
+    n = 96 if quick else 640
+    subs = ['int64', 'float64', 'int32', 'int16', 'float32']
+    R = U.simple_rings([2, 4, 6], (3, 4))
+    lines = [None, []] + [U.flat([rng.choice(P) for _ in range(rng.randint(1, 3))]) for _ in range(n)]
+    rings = [None, []] + [U.flat([a, b, c, a]) for a, b, c in
+                          ([rng.choice(P) for _ in range(3)] for _ in range(n // 2))]
+    mls = [None, []] + [[U.flat([rng.choice(P) for _ in range(rng.randint(1, 3))])
+                         for _ in range(rng.randint(1, 3))] for _ in range(n // 2)]
+    polys = [None, []]
+    shell = [(0, 0), (8, 0), (8, 8), (0, 8)]
+    for k in range(n // 2):
+        r = rng.choice(R)
+        polys.append([U.close(r, cw=bool(k & 1), rot=k)])
+        if k % 3 == 0:
+            polys.append([U.close(shell, cw=bool(k & 2)), U.close(r, cw=not (k & 2))])
+    mps = [None, []] + [[[U.close(rng.choice(R), cw=rng.random() < .5)] for _ in range(rng.randint(1, 2))]
+                        for _ in range(n // 2)]
+    mpts = [None, []] + [U.flat([rng.choice(P) for _ in range(rng.randint(1, 2))]) for _ in range(n // 2)]
+    pts = [None] + [list(p) for p in P]
+    fams = [('point', pts), ('multipoint', mpts), ('line', lines), ('ring', rings), ('multiline', mls),
+            ('polygon', polys), ('multipolygon', mps)]
+    for kind, els in fams:
+        yield kind, els, frac_boxes(rng, 160 if quick else 1500), 'fractional-boxes:' + kind, \
+            [els[2], None], dict(batch=32, qscale=4, subtypes=subs, oracle_stride=4, scalar_boxes=8,
+                                 both_every=2)
+
+
 CORPUS = [
     # (kind, elements): always run, every element also through the scalar form
     ('multipolygon', [[], None, [[[0, 0, 4, 0, 4, 4, 0, 0]]], [[[0, 0, 4, 0, 4, 4, 0, 0]], []], []]),
@@ -568,8 +634,9 @@ def bulk(rep, acc, tier):
     # of the boxes.  Unset in normal runs.
     only = os.environ.get('VERIF_C01_FAMILIES')
     frac = float(os.environ.get('VERIF_C01_BOXFRAC', '1'))
-    for kind, elements, boxes, tag, junk, opts in families(rep, tier):
-        if only and tag not in only.split(','):
+    import itertools
+    for kind, elements, boxes, tag, junk, opts in itertools.chain(frac_families(rep, tier), families(rep, tier)):
+        if only and tag.split(':')[0] not in only.split(','):
             continue
         if frac < 1:
             boxes = boxes[::max(1, int(round(1 / frac)))]
@@ -834,7 +901,8 @@ def explain(rep, fn, case, result, meta):
                      {**mm, 'box': b, 'form': form, 'positions': where,
                       'impl': None if im is None else U.unpack(im),
                       'model': None if m is None else U.unpack(m),
-                      'repro': repro(kind, meta['elements'], meta['subtype'], meta['derivation'], b,
+                      'repro': repro(kind, meta['elements'], meta['subtype'], meta['derivation'],
+                                     [c / meta.get('qscale', 1) for c in b] if meta.get('qscale', 1) != 1 else b,
                                      meta['inds'] if form == 'inds' else None)})
                 return
     viol(rep, f'model-differs:{kind}:unlocated', f'{kind}: kernel reported a difference that could not be located',
@@ -846,9 +914,10 @@ def explain(rep, fn, case, result, meta):
 # ----------------------------------------------------------------------------
 def replay(rep, rp):
     kind = rp['kind']
+    q = rp.get('qscale', 1) or 1      # boxes are stored in units of 1/q
 
-    def tup(e):
-        return e
+    def unq(b):
+        return tuple(b) if q == 1 else tuple(c / q for c in b)
     if rp.get('form') == 'scalar' or ('element' in rp and 'elements' not in rp):
         el_list = rp['element']
         arr = G.make_array(kind, [el_list], rp.get('subtype', 'float64'))
@@ -856,13 +925,13 @@ def replay(rep, rp):
         el = arr[0]
         ok = True
         for b in boxes:
-            g = impl_scalar(el, b)
-            a = arr.intersects_bounds(b)[0]
-            print('box', b, 'scalar:', g, 'array:', bool(a))
+            g = impl_scalar(el, unq(b))
+            a = arr.intersects_bounds(unq(b))[0]
+            print('box', unq(b), 'scalar:', g, 'array:', bool(a))
             ok = ok and (not isinstance(g, tuple)) and g == bool(a)
         if kind != 'point':
-            nbuf, srec = U.export_scalar(el)
-            got = [impl_scalar(el, b) for b in boxes]
+            nbuf, srec = U.export_scalar(el, q)
+            got = [impl_scalar(el, unq(b)) for b in boxes]
             res = None if any(isinstance(g, tuple) for g in got) else C.Some(U.pack(got))
             fn = f'run_scalar_packed {SCALAR_FN[kind]}'
             bad = C.coq_mismatches(IMPORTS, fn, 'nat * listarr * list box', 'option Z',
@@ -880,9 +949,9 @@ def replay(rep, rp):
     inds_np = np.array(inds, dtype='int64')
     results, ok = [], True
     for b in boxes:
-        r1, r2 = impl_array(arr, b, inds_np)
+        r1, r2 = impl_array(arr, unq(b), inds_np)
         ok1, ok2 = not isinstance(r1, tuple), not isinstance(r2, tuple)
-        print('box', b, 'array form:', r1.tolist() if ok1 else r1, 'inds form:', r2.tolist() if ok2 else r2)
+        print('box', unq(b), 'array form:', r1.tolist() if ok1 else r1, 'inds form:', r2.tolist() if ok2 else r2)
         results.append((opt(U.pack_np(r1)) if ok1 else None, opt(U.pack_np(r2)) if ok2 else None))
         ok = ok and ok1 and ok2
         if ok1 and ok2:
@@ -894,13 +963,13 @@ def replay(rep, rp):
                     print('  missing/empty element', i, 'reported True')
             if 'index' in rp and 'oracle' in rp:
                 i = rp['index']
-                want = U.oracle(kind, logical[i], b)
+                want = U.oracle(kind, U.scale_el(logical[i], q), b)
                 print('  oracle for element', i, ':', want)
                 ok = ok and want == bool(r1[i])
     if len(boxes) > 1 and 'other_box' in rp:
         ok = ok and results[0][0] == results[-1][0]
     fn = f'run_array_packed {MODEL_FN[kind]}'
-    case = (export(kind, arr), [C.Nat(i) for i in inds], U.boxes_raw(boxes))
+    case = (export(kind, arr, q), [C.Nat(i) for i in inds], U.boxes_raw(boxes))
     bad = C.coq_mismatches(IMPORTS, fn, arr_ty(kind), ARR_RES_TY, [case], [results])
     mt = parse_pairs(C.coq_eval(IMPORTS, f'{fn} {C.coq(case)}'))
     print('model:', [(None if a is None else U.unpack(a), None if b is None else U.unpack(b)) for a, b in mt][:3])
